@@ -179,6 +179,17 @@ def size_fn(ctx, report):
         else:
             why = "return value is not buffer.len(): %r" % (an.call_expr(node, bb) if hasattr(node, "callee") else an.rvalue_expr(node.rv, bb, idx))
     if not ok and len(rets) == 1:
+        # idiom 3: self.length() with the trait's default length (encode into a scratch buffer and count), or alloy_rlp::encode(self).len()
+        from rules.emit import is_encoding_of_self, length_overridden
+        bb, idx, node = rets[0]
+        if hasattr(node, "callee") and node.callee is not None and node.args:
+            ce = an.call_expr(node, bb)
+            a0 = strip(ce.a[1][0])
+            if node.callee.name == "length" and (node.callee.trait or "").endswith("alloy_rlp::Encodable") and node.callee.self_ty and node.callee.self_ty.get("adt") == "Enr" and a0.k == "param" and a0.a[0] == 1 and not length_overridden(ctx):
+                ok = True
+            elif node.callee.name == "len" and is_encoding_of_self(ctx, f, an, ce.a[1][0]):
+                ok = True
+    if not ok and len(rets) == 1:
         # idiom 2: Header{list: true, payload_length: len(P)}.length() + len(P), P filled only by append_rlp_content(self, _, true)
         ok2, why2 = size_by_header_arithmetic(ctx, f, an, rets[0])
         if ok2:
